@@ -64,7 +64,7 @@ SEED3H = mc("MC_Seeded3_d2")     # three handles, all ops incl. decoders and com
 CONV, PROOF, SCALE = {"kind": "conv"}, {"kind": "proof"}, {"kind": "scale"}
 # TLC simulation mode: random walks of depth 30 over the widest alphabet (3 handles, failures, panics, decoders);
 # TLC evaluates every enabled transition of every visited state, and every one of those is replayed
-SIM = mc("MC_Sim", sim=(16, 30), variants=False, workers=4)
+SIM = mc("MC_Sim", sim=(6, 20), variants=False, workers=8, timeout=480)     # bounded by the clock: a random walk cut short is still a random walk
 
 def conc(name, threads, configs, **kw):
     d = {"kind": "conc", "name": name, "threads": threads, "configs": configs}
